@@ -282,6 +282,12 @@ def run_helper(ctx):
         radius = rng.choice([15.0, 30.0])
         param = dict(pitch=pitch, int_dist=int_dist, int_length=il, samplesize=(sx, 5), radius=radius, speed=20, y_init=rng.choice([0.0, 1.0]),
                      lsafe=2.0)
+        scf = rng.choice([1.0, 1.0, 0.9993, 1.25])
+        if scf != 1.0:
+            # glass-shrink correction: a pitch equal to the fibre-array pitch (0.127 by default) is divided by the factor once
+            param['shrink_correction_factor'] = scf
+            if pitch == 0.127:
+                pitch = pitch / scf
         case = {'param': {k: (list(v) if isinstance(v, tuple) else v) for k, v in param.items()}}
         ctx.seen({'stream': 'helper', **case}, il > 0)
         try:
